@@ -5,6 +5,21 @@ HERE = os.path.dirname(os.path.dirname(os.path.abspath(__file__)))
 ALL = [f"C{i:02d}" for i in range(1, 19)]
 # property -> (technique, level text, level note, design_ref)
 CHECKS = {
+ "C08": ("runtime reference-model monitor: a batched NumPy interpreter applies the combinators' definitions to the children's own real "
+         "methods; the real combinator's four methods, declared shape/cond_shape (vs NumPy's own stack/concatenate/index semantics), "
+         "merge_chains, indexing, slicing and merge_transforms are compared with it",
+         "Exploration: systematic sweep over every valid axis (negative included), every Partial index kind, Vmap parameter/condition "
+         "mapping variants, plus random trees; ~200 trees x 2 parameter draws x 4 methods x 24 inputs per quick run.",
+         "Trusts NumPy's axis/index semantics as the definition and the children's own methods (decided by C01/C02/C07).",
+         "DESIGN.md 4/C08"),
+ "C18": ("runtime NaN/Inf monitor: jitted+vmapped bundles evaluate the public log_prob, jax.grad w.r.t. the input and the gradient "
+         "w.r.t. every trainable leaf on boundary-directed inputs; a harness monitor on the real spline/leaky-tanh methods counts "
+         "exact branch-value hits of inner leaves",
+         "Exploration: ~370 distributions (every R->R leaf/combinator in both orientations, all flow factories, random trees) x 3 "
+         "parameter draws x ~100 inputs (1e5 cases, 2e5 gradient checks per quick run); oracle isnan/isfinite, no tolerance.",
+         "Only judged where |log_prob| <= 1e8 and |x| <= 1e4; log_prob paths that need the bisection search are checked for NaN only "
+         "(reverse-mode differentiation through lax.while_loop is unsupported by JAX).",
+         "DESIGN.md 4/C18"),
  "C01": ("runtime reference monitor on the real methods: jitted+vmapped bundles execute transform/inverse/*_and_log_det of generated "
          "bijection expressions on boundary-directed inputs; the round-trip identity is the oracle, with a conditioning-scaled "
          "tolerance derived from the float64 autodiff Jacobian",
